@@ -230,4 +230,15 @@ def genCases : List (World × String × String × String) := [
   (wA, "/w", "../../../a", "/a"),
   (wA, "/w", "", "/w")]
 
+/-! ### chains of links at the kernel's limit (40 links followed per lookup) -/
+
+def chainName (i : Nat) : String := "c" ++ String.ofList (List.replicate i 'x')
+
+/-- `/w/cx -> cxx -> … -> c(x^n) -> /a/t`: a chain of exactly `n` links -/
+def chainWorld (n : Nat) : World where
+  cwd := "/w"
+  fds := []
+  links := (List.range n).map (fun i => ("/w/" ++ chainName (i + 1), if i + 1 == n then "/a/t" else chainName (i + 2)))
+
+
 end GoSandbox.Model.PathDispatch
